@@ -235,7 +235,33 @@ static rc::Gen<Case> gen_c04(int inst) {
   const Ref rf = g_ops[(size_t)inst]; const VfRelation* R = g_rel[rf.nt][(size_t)rf.idx];
   // half of the cases from a moderate window, half from (almost) the whole exponent range: overflow to infinity and underflow are IEEE results too
   const int n = total_comps(R), nt = rf.nt, w = nt == 0 ? 12 : 60, ww = nt == 0 ? 60 : nt == 1 ? 500 : 8000;
-  return rc::gen::map(rc::gen::oneOf(gen_reals(n, nt, -w, w, kNeg | kZero), gen_reals(n, nt, -ww, ww, kNeg | kZero)), [=](const std::vector<LD>& v) { Case c; c.i = {nt, rf.idx}; c.r = v; return c; });
+  auto plain = rc::gen::map(rc::gen::oneOf(gen_reals(n, nt, -w, w, kNeg | kZero), gen_reals(n, nt, -ww, ww, kNeg | kZero)), [=](const std::vector<LD>& v) { Case c; c.i = {nt, rf.idx}; c.r = v; return c; });
+  // operands whose exact sum / difference / product lies just beside a rounding tie of the numeric type, by less than the resolution of the next wider format:
+  // an operator evaluated in a wider type and rounded back (double rounding) gets these wrong, and random operands are that close with probability 2^-11
+  const int op = R->kind == 7 ? 0 : R->kind == 8 ? 1 : R->kind == 9 ? 2 : R->kind;
+  if (nt == 0 || op > 2 || R->nargs != 2) return plain;
+  const int p = ntinfo(nt).mant;
+  auto ties = rc::gen::map(rc::gen::tuple(gen_real(nt, -40, 40, kNeg), rc::gen::container<std::vector<int>>((size_t)n + 2, irange(0, 1000))), [=](const std::tuple<LD, std::vector<int>>& t) {
+    Case c; c.i = {nt, rf.idx}; c.r.assign((size_t)n, 0);
+    const std::vector<int>& r = std::get<1>(t);
+    const int na = R->args[0].ncomp, nb = R->args[1].ncomp;
+    if (op <= 1) {
+      // a (+|-) b with |b| = ulp(a)/2 + ulp(a) 2^-k: exactly representable, the exact result is a tie plus a sliver
+      for (int j = 0; j < na; j++) {
+        int e; const LD a = round_to(nt, std::ldexp(std::frexp(std::get<0>(t), &e) + std::ldexp((LD)r[(size_t)j], -30), e));
+        const LD u = ulp_at(nt, a); const int k = 12 + r[(size_t)j] % 28;
+        LD b = u / 2 + std::ldexp(u, -k); if ((a < 0) != (op == 1)) b = -b;   // moves |a| away from zero
+        c.r[(size_t)j] = a; if (j < nb) c.r[(size_t)(na + j)] = b;
+      }
+    } else {
+      // (1 + 2^-i)(1 + 2^-j + c 2^-(p-1)) with i + j = p: the cross term 2^-p is half an ulp, the rest is far below the resolution of the wider format
+      const int i = 13 + r[0] % (p - 28), jx = p - i;
+      const LD x = std::ldexp(1 + std::ldexp((LD)1, -i), r[1] % 60 - 30) * (r[1] % 2 ? -1 : 1);
+      for (int j = 0; j < na; j++) c.r[(size_t)j] = x;
+      for (int j = 0; j < nb; j++) c.r[(size_t)(na + j)] = std::ldexp(1 + std::ldexp((LD)1, -jx) + std::ldexp((LD)(1 + r[(size_t)(2 + j) % r.size()] % 3), -(p - 1)), r[(size_t)(2 + j) % r.size()] % 40 - 20);
+    }
+    return c; });
+  return rc::gen::oneOf(plain, plain, plain, plain, plain, ties);
 }
 // constructor with an operator twin
 struct Twin { int nt; int ctor; int op; bool swapped; };
